@@ -18,7 +18,7 @@ SPECS = {
     "C13": vec("BumpVerif.Props.C13",
                [("general", 900, 45), ("bounds", 700, 45), ("iters", 500, 45), ("growth", 400, 45), ("zst", 400, 40), ("copy", 300, 40), ("panics", 500, 45)],
                ["res", "len", "cap", "ids", "moved"], VEC_OPS,
-               quick_release=[("bounds", 300, 45), ("general", 200, 45)], thorough_scale=40,
+               quick_release=[("bounds", 300, 45), ("general", 200, 45)], thorough_scale=100,
                partial=["per-method refinement theorems are proved for every method of the list: push, pop, insert, remove, swap_remove, "
                         "truncate, clear, append, split_off, drain (all range forms), retain, drain_filter, into_iter (front/back), reserve "
                         "family, and (Proofs/VecRefine2.lean, Proofs/VecSplice.lean) splice (every path incl. lying size_hint, refused "
@@ -42,7 +42,7 @@ SPECS = {
                ["drops", "moved", "ids", "len", "res"],
                ["pop", "remove", "swap_remove", "truncate", "clear", "resize", "drain", "splice", "drain_filter", "retain", "dedup",
                 "dedup_by", "dedup_by_key", "into_iter", "into_iter_nth", "into_bump_slice", "into_boxed", "drop", "append", "split_off", "extend",
-                "clone", "insert", "push"], thorough_scale=40,
+                "clone", "insert", "push"], thorough_scale=100,
                partial=["Own preservation is proved for every method of the list: push, pop, insert, remove, swap_remove, truncate/clear, "
                         "append, split_off, drain, into_iter, into_iter().nth (Proofs/VecNth.lean), retain, drain_filter, dedup(_by/_by_key), extend (caller's iterator), drop, "
                         "into_bump_slice, splice (every path), into_boxed_slice (+ drop of the box), vec! (both forms, every path) (and, in "
@@ -54,7 +54,7 @@ SPECS = {
                ["res", "drops", "moved", "ids", "len"],
                ["retain", "drain_filter", "dedup_by", "dedup_by_key", "resize", "extend", "extend_from_slice", "clone", "splice",
                 "from_iter", "collect_in", "vmacro_n", "truncate", "clear", "drop", "into_iter", "into_iter_nth", "drain", "into_boxed"],
-               quick_release=[("panics", 400, 45)], thorough_scale=40,
+               quick_release=[("panics", 400, 45)], thorough_scale=100,
                partial=["full theorems (every callback answer function / panic index): drain_filter, retain, dedup_by(_key), truncate, clear, "
                         "drop, into_iter and drain dropped with panicking destructors, resize / extend_from_slice / clone / vec![elem; n] "
                         "with a panicking Clone, extend / from_iter_in / splice with an iterator panicking at any next() call (splice: also "
